@@ -42,9 +42,9 @@ def snap_rel_conds(la, lb, sa, sb, tag=''):
             if a1 is None or a2 is None:
                 # a NULL buffer stands for the empty string
                 if a1 is None:
-                    conds.append((f'{tag}{n}: NULL buffer => empty', l1 == 0))
+                    conds.append((f'{tag}{n}: NULL buffer => empty', l1 == 0) if la.ondemand else (f'{tag}{n}: buffer is NULL in a build that never allocates on demand (base)', z3.BoolVal(False)))
                 if a2 is None:
-                    conds.append((f'{tag}{n}: NULL buffer => empty', l2 == 0))
+                    conds.append((f'{tag}{n}: NULL buffer => empty', l2 == 0) if lb.ondemand else (f'{tag}{n}: buffer is NULL in a build that never allocates on demand (variant)', z3.BoolVal(False)))
                 continue
             term = o.type == OST.STR and o.str_null
             k = z3.BitVec(f'kr_{n}', 64)
@@ -90,8 +90,22 @@ def rel_state(la, lb, sidx, sym_is_end, alloc_b, stats, timeout_ms=30000, idxmap
     pcB = {id(q): (z3.And(*q.pc) if q.pc else z3.BoolVal(True)) for q in exb.paths}
 
     def on_pair(p, q):
-        if p.kind == 'ABORT' or q.kind == 'ABORT':
+        if p.kind == 'ABORT' and q.kind == 'ABORT':
             d['cov']['paths_skipped_memory_fault_reported_by_C03'] = d['cov'].get('paths_skipped_memory_fault_reported_by_C03', 0) + 1
+            return
+        if p.kind == 'ABORT' or q.kind == 'ABORT':
+            # one build faults where the other returns: a difference between the representations IF the pre-state is reachable; the caller
+            # looks for an input through the public API (engines/reach) and replays both builds from start(); otherwise it is left to C03
+            solver.push(); solver.add(pcB[id(q)])
+            r, mdl = symx.robust_check(solver); d['queries'] += 1
+            solver.pop()
+            if r == z3.sat:
+                w = {'pre': stepcmp.model_pre(la, mdl, data, sidx, None), 'sym': symname, 'alloc_b': alloc_b}
+                if not sym_is_end:
+                    w['byte'] = mdl.eval(b, model_completion=True).as_long()
+                findings.append({'kind': 'c12-diff', 'what': 'representation option changes the parse', 'one_sided_fault': True,
+                                 'detail': f'only one build faults: base {p.kind} {str(p.why or "")[:80]} / variant {q.kind} {str(q.why or "")[:80]}',
+                                 '_cond': list(p.pc) + list(q.pc), '_data_b': data_b, **w})
             return
         conds = []
         if p.kind != 'RET' or q.kind != 'RET':
